@@ -77,14 +77,38 @@ func runCase(t *testing.T, c *simCase) {
 			mu.Unlock()
 		}
 		add := func(kind string, k int, _ bool) { addf(kind, k, nil) }
+		calls := map[int]int{}
 		d := &ech.Dialer[*fakeConn]{RequireECH: c.Require, MaxConcurrency: c.Workers, ConcurrencyDelay: time.Duration(c.DelayMs) * time.Millisecond, Timeout: time.Duration(c.TimeoutMs) * time.Millisecond}
 		d.DialFunc = func(ctx context.Context, network, addr string, tc *tls.Config) (*fakeConn, error) {
 			// addr = 10.0.0.k:1
 			host := strings.TrimSuffix(strings.TrimPrefix(addr, "10.0.0."), ":1")
 			k, _ := strconv.Atoi(host)
 			k--
-			addf("start", k, func() bool { return ctx.Err() != nil })
 			sc := c.Script[k]
+			if strings.HasPrefix(sc, "rej") {
+				// one attempt, two DialFunc calls: the server rejects ECH with retry configs after <ms>, and
+				// the retry (with those configs) then hangs until its context ends. Both calls are the same
+				// attempt: one start, one finish, one Timeout.
+				mu.Lock()
+				calls[k]++
+				first := calls[k] == 1
+				mu.Unlock()
+				if first {
+					addf("start", k, func() bool { return ctx.Err() != nil })
+					ms, _ := strconv.Atoi(strings.Split(sc, ":")[1])
+					select {
+					case <-time.After(time.Duration(ms) * time.Millisecond):
+						return nil, &tls.ECHRejectionError{RetryConfigList: []byte{0, 4, 1, 2, 3, 4}}
+					case <-ctx.Done():
+						add("finish-err", k, false)
+						return nil, ctx.Err()
+					}
+				}
+				<-ctx.Done()
+				add("finish-err", k, false)
+				return nil, ctx.Err()
+			}
+			addf("start", k, func() bool { return ctx.Err() != nil })
 			if sc == "hang" {
 				<-ctx.Done()
 				add("finish-err", k, false)
@@ -443,6 +467,16 @@ func TestTraces(t *testing.T) {
 	family("stubborn", []string{"sok:300", "sfail:300", "ok:50", "fail:0", "sok:2000"}, 3, func(cur []string) bool {
 		for _, s := range cur {
 			if strings.HasPrefix(s, "s") {
+				return true
+			}
+		}
+		return false
+	}, 2, nil)
+	// an attempt that is rejected by the server's ECH and retried with the retry configs is still one
+	// attempt: the Timeout covers both calls
+	family("echretry", []string{"rej:300", "rej:700", "ok:50", "fail:0", "hang"}, 3, func(cur []string) bool {
+		for _, s := range cur {
+			if strings.HasPrefix(s, "rej") {
 				return true
 			}
 		}
